@@ -270,6 +270,17 @@ def field_value(built, path):
     return None
 
 
+def with_lambdas(F, fn):
+    """fn and the bodies of the lambdas written inside it (a loop body moved into an algorithm's lambda is still fn's code)."""
+    out = [fn]
+    for nd in fn.nodes:
+        if nd["k"] == "LambdaExpr" and nd.get("lambda_fn") in F.functions:
+            lf = F.functions[nd["lambda_fn"]]
+            if lf not in out:
+                out.append(lf)
+    return out
+
+
 def private_closure(F, fn, depth=2):
     """Keys of fn and of the non-public helpers it calls (transitively) that nothing outside this set calls: the code that
     runs only as part of fn, however fn has been split up."""
